@@ -61,16 +61,28 @@ def run(ck, P):
     ok = hv["k"] == "var" and hv.get("vk") == "local"
     det = "handler expression %s" % S(hv)
     if ok:
-        name = hv["name"]
-        defs = [e for e in cb.events() if e.kind in ("decl", "assign") and e.lhs is not None and S(e.lhs) == name and e.rhs is not None]
-        peek = [d for d in defs if strip(d.rhs).get("callee") == "m_stack_peek" and S(strip(d.rhs)["args"][0]) == "mod->recvs"]
-        fall = [d for d in defs if S(d.rhs) == "mod->hook.on_evt"]
-        ok = len(defs) == 2 and len(peek) == 1 and len(fall) == 1 and cb.ev_dominates(peek[0], uc) \
-            and has(X.facts(cb, fall[0]), name, False) and S(uc.args[0]) == "mod"
+        # ultimate definitions of the handler value, looking through copies between locals (the selection may live in an inlined helper)
+        seen_names, todo, srcs = set(), [hv["name"]], []
+        while todo:
+            nm_ = todo.pop()
+            if nm_ in seen_names:
+                continue
+            seen_names.add(nm_)
+            for d in cb.events():
+                if d.kind in ("decl", "assign") and d.lhs is not None and S(d.lhs) == nm_ and d.rhs is not None:
+                    r_ = strip(d.rhs)
+                    if r_["k"] == "var" and r_.get("vk") in ("local", "param"):
+                        todo.append(r_["name"])
+                    else:
+                        srcs.append((nm_, d))
+        peek = [(n_, d) for (n_, d) in srcs if strip(d.rhs).get("callee") == "m_stack_peek" and S(strip(d.rhs)["args"][0]) == "mod->recvs"]
+        fall = [(n_, d) for (n_, d) in srcs if S(d.rhs) == "mod->hook.on_evt"]
+        ok = len(srcs) == 2 and len(peek) == 1 and len(fall) == 1 and cb.ev_dominates(peek[0][1], uc) \
+            and has(X.facts(cb, fall[0][1]), fall[0][0], False) and S(uc.args[0]) == "mod"
         later = [e for e in cb.calls("m_stack_peek") if cb.ev_dominates(uc, e)]
         ok = ok and not later
-        det = "handler = %s, fallback %s under !%s, invoked with (%s, %s)" % ([S(d.rhs) for d in peek], [S(d.rhs) for d in fall], name,
-                                                                             S(uc.args[0]), S(uc.args[1]) if len(uc.args) > 1 else "")
+        det = "handler = %s, fallback %s under !%s, invoked with (%s, %s)" % ([S(d.rhs) for (_n, d) in peek], [S(d.rhs) for (_n, d) in fall],
+                                                                             fall[0][0] if fall else "?", S(uc.args[0]), S(uc.args[1]) if len(uc.args) > 1 else "")
     ck.ob("C17.2-SELECTION", cb.site("handler selection"), ok, det)
 
     # ------------------------------------------------------------------ 3. guards
